@@ -40,10 +40,10 @@ Definition get_field (data : list N) (w idx : N) : option N :=
     end.
 
 (* the field mask: [fixed = true] is the tree after the "fix:" commit
-   (bitsField == WLS special-cased, as maxVal already does); [fixed = false] is
+   (bitsField >= WLS special-cased, as maxVal already does); [fixed = false] is
    the pinned code  ~(~0 << bitsField)  whose shift count 64 is masked to 0 *)
 Definition field_mask (fixed : bool) (w : N) : N :=
-  if fixed && (w =? 64) then ones64 else not64 (shl64 ones64 w).
+  if fixed && (64 <=? w) then ones64 else not64 (shl64 ones64 w).
 
 (* void set_field(size_t *data, size_t bitsField, size_t index, size_t value) *)
 Definition set_field_gen (fixed : bool) (data : list N) (w idx value : N) : option (list N) :=
